@@ -16,7 +16,7 @@ import copy
 from typing import Dict, List, Optional
 
 from ..cfg import (CFG, call_name, calls_in, walk_no_nested, parents_map, guards_of, attr_chain, enum_paths,
-                   const_int)
+                   const_int, branches, ctext, cconds, cguards_of)
 from ..core import AnalysisError, Ctx, Func, norm
 from ..effects import Effects
 from ..util import branch_raises
@@ -378,13 +378,19 @@ def accessor_branches(ctx: Ctx, rule: str, names):
         g = ctx.func(nm)
         txt = ast.unparse(g.node)
         ok = "islice_extended(self._molecules_ordered_all_gen(), index.start, index.stop, index.step)" in txt
-        m1 = [n_ for n_ in ast.walk(g.node) if isinstance(n_, ast.If) and norm(n_.test).replace(" ", "") in ("index==-1", "-1==index")]
-        ok = ok and bool(m1) and "last(self._molecules_ordered_all_gen())" in ast.unparse(ast.Module(m1[0].body, [])) \
-            and "islice_extended(self._molecules_ordered_all_gen(), index, index + 1)" in ast.unparse(ast.Module(m1[0].orelse, []))
-        sl = [n_ for n_ in ast.walk(g.node) if isinstance(n_, ast.If) and norm(n_.test) == "isinstance(index, slice)"]
-        it_ = [n_ for n_ in ast.walk(g.node) if isinstance(n_, ast.If) and norm(n_.test) == "isinstance(index, int)"]
-        ok = ok and bool(sl) and bool(it_) and "index.start" in ast.unparse(ast.Module(sl[0].body, [])) \
-            and any(x is m1[0] for x in ast.walk(ast.Module(it_[0].body, []))) if m1 else False
+        def pick(src):
+            want, wpol = ctext(src)
+            for n_ in ast.walk(g.node):
+                if isinstance(n_, ast.If):
+                    ct, wt, wf = branches(n_)
+                    if ct == want:
+                        return (n_, wt, wf) if wpol else (n_, wf, wt)
+            return None
+        m1, sl, it_ = pick("index == -1"), pick("isinstance(index, slice)"), pick("isinstance(index, int)")
+        ok = ok and bool(m1) and "last(self._molecules_ordered_all_gen())" in ast.unparse(ast.Module(m1[1], [])) \
+            and "islice_extended(self._molecules_ordered_all_gen(), index, index + 1)" in ast.unparse(ast.Module(m1[2], []))
+        ok = bool(ok and sl and it_ and m1 and "index.start" in ast.unparse(ast.Module(sl[1], []))
+                  and any(x is m1[0] for x in ast.walk(ast.Module(it_[1], []))))
         ctx.ob(rule, g, "%s: int / -1 / slice branches" % nm, ok,
                "integer indexing takes element [index, index+1) of the generator (the last one for -1, where that window "
                "would be empty) and slicing passes start/stop/step through", node=g.node)
